@@ -209,7 +209,9 @@ def check_index(w: World, slot_idx: int, probe_dids=(), probe_data=()):
 
     # branch-scoped lookups: Node.find_all / find_first see the carriers below the node
     with_kids = [c for c in order if real_children(c)]
-    for b in (with_kids[:1] + with_kids[len(with_kids) // 2:len(with_kids) // 2 + 1]):
+    # (the invisible root is a branch as well: `tree.system_root.find_first(...)`)
+    roots = [tree.system_root] if order else []
+    for b in (roots + with_kids[:1] + with_kids[len(with_kids) // 2:len(with_kids) // 2 + 1]):
         below: dict[object, list] = {}
         sub_order = []
 
